@@ -97,6 +97,12 @@ func replaceLaws(re *regexp2.Regexp, gt *ref.GroupTable, s, repl string, startAt
 		}
 		return "", "", 0
 	}
+	if gt.ECMA && strings.Contains(repl, "${\\") {
+		// under ECMAScript a group name may start with a \u escape, so "${\" opens a name and any
+		// other escape is rejected ("invalid capture group name"): not a string of the $-grammar
+		st("replacement-ecma-name-escape")
+		return "", "", 0
+	}
 	if ref.ReplacementOverflows(repl) {
 		// not a replacement string of the $-grammar: a group number beyond 32 bits is rejected (as in .NET)
 		st("replacement-number-overflow")
@@ -229,8 +235,8 @@ func splitLaws(re *regexp2.Regexp, s string, count int, st c09Stats) (detail, in
 	return "", ""
 }
 
-func groupTableOf(re *regexp2.Regexp) *ref.GroupTable {
-	return &ref.GroupTable{Numbers: re.GetGroupNumbers(), Names: re.GetGroupNames()}
+func groupTableOf(re *regexp2.Regexp, opts int) *ref.GroupTable {
+	return &ref.GroupTable{Numbers: re.GetGroupNumbers(), Names: re.GetGroupNames(), ECMA: opts&int(regexp2.ECMAScript) != 0}
 }
 
 // genReplacement produces a replacement string from the $-grammar.
@@ -286,7 +292,7 @@ func replayC09(w core.Witness) string {
 		d, _ := splitLaws(re, w.Input, w.N, func(string) {})
 		return d
 	}
-	d, _, _ := replaceLaws(re, groupTableOf(re), w.Input, w.Repl, w.Start, w.N, func(string) {})
+	d, _, _ := replaceLaws(re, groupTableOf(re, w.Options), w.Input, w.Repl, w.Start, w.N, func(string) {})
 	return d
 }
 
@@ -322,7 +328,14 @@ func runC09(r *core.Run) int {
 		if pc == nil {
 			return
 		}
-		pc.opts &^= int(regexp2.ECMAScript | regexp2.Unicode) // ECMAScript has its own $-grammar
+		// ECMAScript has its own rule for $ followed by digits (the expander follows it); a quarter of
+		// the generated patterns are compiled with it
+		if pc.pat != nil && rng.Intn(4) == 0 {
+			pc.opts |= int(regexp2.ECMAScript)
+			pc.opts &^= int(regexp2.RE2 | regexp2.RightToLeft)
+		} else {
+			pc.opts &^= int(regexp2.ECMAScript | regexp2.Unicode)
+		}
 		if !r.ClaimPattern(fmt.Sprintf("%d/%s", pc.opts, pc.src)) {
 			return
 		}
@@ -333,7 +346,7 @@ func runC09(r *core.Run) int {
 			return
 		}
 		re.MatchTimeout = shortTimeout
-		gt := groupTableOf(re)
+		gt := groupTableOf(re, pc.opts)
 		l.Count("patterns", 1)
 		if re.RightToLeft() {
 			l.Count("patterns_rtl", 1)
